@@ -62,7 +62,11 @@ __CPROVER_ensures(g_off == __CPROVER_old(g_off) + (size_t)message[0] + 1 && g_co
 
 void vp_harness(void) {
 	size_t in_size; VP_IN(size_t, in_size);
+#ifdef VP_MAX_PACKET
+	__CPROVER_assume(in_size <= VP_MAX_PACKET);   /* bounded stand-in: stated bound on the packet size */
+#else
 	__CPROVER_assume(in_size <= 255);
+#endif
 	uint8_t *pkt = malloc(in_size);
 	__CPROVER_assume(pkt != NULL);
 	VP_IN(size_t, g_w);
